@@ -43,7 +43,6 @@ impl MT199 {
 
         verify_parser_complete(&parser)?;
 
-
         Ok(MT199 {
             field_20,
             field_21,
